@@ -627,7 +627,50 @@ def gen_project(rng: random.Random, idx: int) -> dict:
     incs = ['inc_t'] + (['inc_s'] if sdirs else [])
     mb.append(f"exe = executable('exe', 'main.c', c_args: [{q(level_args['T'])}], include_directories: [{', '.join(incs)}], "
               f"dependencies: [{', '.join(deps)}], link_with: [{', '.join(links)}], link_args: ['-lm', '-lm', '-pthread'])")
+    # --- dependencies as increments: several declare_dependency objects, some with IDENTICAL contents, interleaved
+    # with competing ones (define/undefine pairs, include directories that provide the same header)
+    ndirs = ['ninc_a', 'ninc_b', 'ninc_c']
+
+    def ncontent() -> T.List[str]:
+        c = [rng.choice(['-DZQFEAT', '-UZQFEAT']), '-I@SRC@/' + rng.choice(ndirs)]
+        if rng.random() < 0.5:
+            c.append('-DZQVAL=' + rng.choice('123'))
+        if rng.random() < 0.4:
+            c.append(rng.choice(['-fwrapv', '-fno-strict-aliasing']))       # non-dedupable: multiplicity counts
+        rng.shuffle(c)
+        return c
+    pool = [ncontent() for _ in range(rng.randint(2, 3))]
+    if rng.random() < 0.75:
+        # A, B, A' with B competing against A
+        a = ['-DZQFEAT', '-I@SRC@/ninc_a'] + (['-DZQVAL=1'] if rng.random() < 0.5 else [])
+        b = ['-UZQFEAT', '-I@SRC@/ninc_b'] + (['-DZQVAL=2'] if rng.random() < 0.5 else [])
+        if rng.random() < 0.5:
+            a, b = b, a
+        nseq = [a, b, list(a)]
+        for _ in range(rng.randint(0, 2)):
+            nseq.insert(rng.randint(0, len(nseq)), list(rng.choice(pool)))
+    else:
+        nseq = [list(rng.choice(pool)) for _ in range(rng.randint(2, 5))]
+    mb.append("zq_src = meson.current_source_dir()")
+    for i, c in enumerate(nseq):
+        toks = ', '.join(("'-I' + zq_src / '" + t[len('-I@SRC@/'):] + "'") if t.startswith('-I@SRC@/') else "'" + t + "'" for t in c)
+        mb.append(f"nd{i} = declare_dependency(compile_args: [{toks}])")
+    nlisted = [f'nd{i}' for i in range(len(nseq))]
+    if rng.random() < 0.3:
+        nlisted.insert(rng.randint(0, len(nlisted)), 'thr')
+    mb.append(f"nexe = executable('nexe', 'n.c', dependencies: [{', '.join(nlisted)}])")
+    # the same through include_directories: of the dependencies: first listed is searched first, each directory once
+    iseq = [rng.choice(ndirs) for _ in range(rng.randint(2, 4))]
+    if rng.random() < 0.7:
+        x, y = rng.sample(ndirs, 2)
+        iseq = [x, y, x] + iseq[:1]
+    for i, d in enumerate(iseq):
+        mb.append(f"ni{i} = declare_dependency(include_directories: include_directories('{d}'))")
+    mb.append(f"nexe2 = executable('nexe2', 'n.c', dependencies: [{', '.join(f'ni{i}' for i in range(len(iseq)))}])")
     files: T.Dict[str, str] = {'meson.build': '\n'.join(mb) + '\n',
+                               'n.c': '#include <which.h>\nint main(void) { return WHICH; }\n',
+                               'ninc_a/which.h': '#define WHICH 1\n', 'ninc_b/which.h': '#define WHICH 2\n',
+                               'ninc_c/which.h': '#define WHICH 3\n',
                                'main.c': 'int main(void) { return 0; }\n',
                                'l1.c': 'int l1(void) { return 1; }\n', 'l2.c': 'int l2(void) { return 2; }\n'}
     for d in set(tdirs + ddirs + sdirs + ['ds1', 'ds2']):
@@ -651,7 +694,7 @@ def gen_project(rng: random.Random, idx: int) -> dict:
         argv.append('-Db_pie=true')
     if rng.random() < 0.3:
         argv.append('-Dc_std=' + rng.choice(['c99', 'gnu11']))
-    return {'idx': idx, 'files': files, 'argv': argv, 'macros': per_level_macro, 'tdirs': tdirs, 'ddirs': ddirs,
+    return {'idx': idx, 'files': files, 'argv': argv, 'macros': per_level_macro, 'nseq': nseq, 'iseq': iseq, 'tdirs': tdirs, 'ddirs': ddirs,
             'sdirs': sdirs, 'dup_dir': dup_dir, 'use_sub': use_sub, 'global_args': level_args['G'],
             'project_args': level_args['P'], 'features': sorted(
                 [f'lib:{libkind}'] + (['subproject'] if use_sub else []) + (['two-deps'] if two_deps else []) +
@@ -784,6 +827,85 @@ def check_target_args(proj: dict, tokens: T.List[str], private_dir: str, is_exe:
     return cnt, bad
 
 
+_WHICH = {'ninc_a': '1', 'ninc_b': '2', 'ninc_c': '3'}
+
+
+def preprocess(tokens: T.List[str], source: str, cwd: str) -> T.Optional[T.Dict[str, str]]:
+    """Macros the real preprocessor ends up with for `source` under the -I/-D/-U tokens, in their order."""
+    sel = [t for t in tokens if t.startswith(('-I', '-D', '-U', '-isystem'))]
+    try:
+        p = subprocess.run(['gcc', '-E', '-dM', '-x', 'c', '-'] + sel, input=source.encode(), cwd=cwd,
+                           stdout=subprocess.PIPE, stderr=subprocess.DEVNULL, timeout=30)
+    except (OSError, subprocess.TimeoutExpired):
+        return None
+    if p.returncode != 0:
+        return {'<preprocessor-failed>': '1'}
+    res: T.Dict[str, str] = {}
+    for line in p.stdout.decode('utf-8', 'replace').splitlines():
+        parts = line.split(None, 2)
+        if len(parts) >= 2 and parts[0] == '#define':
+            res[parts[1]] = parts[2] if len(parts) > 2 else ''
+    return res
+
+
+def check_dependency_increments(proj: dict, tokens: T.List[str], bdir: str) -> T.Tuple[T.Dict[str, int], T.List[T.Tuple[str, dict]]]:
+    """nexe: the dependencies' compile_args are increments added so that the first listed dependency has the
+    highest precedence (backends.py: "We must preserve the order in which external deps are specified, so we reverse
+    the list before iterating over it").  The expected increment sequence comes from the PROJECT DESCRIPTION, not from
+    the += calls the backend happened to make: eager reference of reversed(listed) increments, compared on the
+    arguments only the dependencies use; plus what the real preprocessor makes of the whole command line."""
+    cnt = {'e2e:dependency-increments': 1}
+    bad: T.List[T.Tuple[str, dict]] = []
+
+    def norm(t: str) -> str:
+        m = re.match(r'-I.*/(ninc_[abc])$', t)
+        return '-I@SRC@/' + m.group(1) if (m and t.startswith('-I/')) else t
+    ref = refargs.RefArgs(refargs.CLIKE)
+    for inc in reversed(proj['nseq']):
+        ref.add_batch(list(inc))
+    ns = {t for inc in proj['nseq'] for t in inc}
+    observed = [norm(t) for t in tokens if norm(t) in ns]
+    expected = list(ref.items)
+    if observed != expected:
+        bad.append(('e2e-dependency-increments-differ-from-eager:' + S.classify_list_diff(refargs.CLIKE, observed, expected),
+                    {'observed': observed, 'expected': expected, 'increments_in_order_of_addition': list(reversed(proj['nseq']))}))
+    eff = preprocess(tokens, '#include <which.h>\n', bdir)
+    if eff is not None:
+        cnt['e2e:dependency-effective'] = 1
+        first_dir = next(t for t in expected if t.startswith('-I'))
+        want = {'WHICH': _WHICH[first_dir.rsplit('/', 1)[1]]}
+        last_feat = [t for t in expected if t in ('-DZQFEAT', '-UZQFEAT')][-1]
+        want['ZQFEAT'] = '1' if last_feat == '-DZQFEAT' else None       # type: ignore[assignment]
+        vals = [t for t in expected if t.startswith('-DZQVAL=')]
+        if vals:
+            want['ZQVAL'] = vals[-1].split('=', 1)[1]
+        got = {k: eff.get(k) for k in want}
+        if got != want:
+            bad.append(('e2e-dependency-effective-setting-not-first-listed', {'effective': got, 'expected': want,
+                                                                              'increments_in_order_of_addition': list(reversed(proj['nseq']))}))
+    return cnt, bad
+
+
+def check_dependency_include_dirs(proj: dict, tokens: T.List[str], bdir: str) -> T.Tuple[T.Dict[str, int], T.List[T.Tuple[str, dict]]]:
+    """nexe2: include_directories of the dependencies keep the order in which they are specified, each once."""
+    cnt = {'e2e:dependency-include-dirs': 1}
+    bad: T.List[T.Tuple[str, dict]] = []
+    expected: T.List[str] = []
+    for d in proj['iseq']:
+        if f'-I../{d}' not in expected:
+            expected.append(f'-I../{d}')
+    observed = [t for t in tokens if t in ('-I../ninc_a', '-I../ninc_b', '-I../ninc_c')]
+    if observed != expected:
+        bad.append(('e2e-dependency-include-dirs-order', {'observed': observed, 'expected': expected, 'listed': proj['iseq']}))
+    eff = preprocess(tokens, '#include <which.h>\n', bdir)
+    if eff is not None:
+        cnt['e2e:dependency-effective'] = 1
+        if eff.get('WHICH') != _WHICH[proj['iseq'][0]]:
+            bad.append(('e2e-dependency-effective-setting-not-first-listed', {'effective': {'WHICH': eff.get('WHICH')},
+                                                                              'expected': {'WHICH': _WHICH[proj['iseq'][0]]}, 'listed': proj['iseq']}))
+    return cnt, bad
+
+
 def run_project(proj: dict, root: T.Optional[str] = None) -> dict:
     """One real `meson setup` with the shadow installed + the end-to-end checks. Plain data out."""
     own = root is None
@@ -827,7 +949,12 @@ def run_project(proj: dict, root: T.Optional[str] = None) -> dict:
                     if tok not in tokens:
                         res['viol'].append(('e2e-argument-lost', {'statement': out, 'token': tok}))
                 continue
-            if private_dir.startswith('exe'):
+            bdir = os.path.join(src, 'build')
+            if private_dir == 'nexe.p':
+                cnt, bad = check_dependency_increments(proj, tokens, bdir)
+            elif private_dir == 'nexe2.p':
+                cnt, bad = check_dependency_include_dirs(proj, tokens, bdir)
+            elif private_dir.startswith('exe'):
                 cnt, bad = check_target_args(proj, tokens, private_dir, True)
             elif 'l1' in private_dir:
                 cnt, bad = check_target_args(proj, tokens, private_dir, False)
@@ -1034,7 +1161,8 @@ def main() -> int:
     chk.require('meson:setups-ok', min_ok)
     for m in ('meson:compare:full-list', 'meson:read:to_native', 'meson:op:__iadd__', 'meson:op:extend_preserving_lflags',
               'e2e:define-order-pairs', 'e2e:effective-macro', 'e2e:override-dedup', 'e2e:include-order-pairs',
-              'e2e:isystem-order-pairs', 'e2e:include-private-dir-first'):
+              'e2e:isystem-order-pairs', 'e2e:include-private-dir-first', 'e2e:dependency-increments',
+              'e2e:dependency-include-dirs', 'e2e:dependency-effective'):
         chk.require(m, 1)
     if chk.counters.get('shadow:adopted', 0):
         chk.notes['adopted_in_process'] = chk.counters['shadow:adopted']
@@ -1056,6 +1184,9 @@ def main() -> int:
             'precedence of argument sources end to end is demanded only where a comment in backends.py/ninjabackend.py or '
             'docs/yaml states it: project < global < c_args option < target, dependency < target; '
             'include_directories: first listed first (-I), reversed for is_system (include_directories.yaml)',
+            'compile_args of the dependencies of a target are increments added in reversed listed order, so the first '
+            'listed dependency has the highest precedence (comment in generate_basic_compiler_args); the expected '
+            'sequence of increments is taken from the project description, not from the += calls observed',
             'POSIX paths, gcc-like C compiler with a GNU-like linker; D/other CompilerArgs subclasses are not shadowed',
         ],
         exhaustive=exhaustive_complete,
